@@ -49,17 +49,45 @@ def _read(m, keys):
         getattr(m, k)
 
 
-def _compare(ctx, m, tag):
+def _compare(ctx, m, tag, extra=()):
     f = _fresh(ctx, m)
-    for k in NUMERIC:
+    if extra:
+        f.density = m.density
+    for k in list(NUMERIC) + list(extra):
         got = getattr(m, k)
         exp = getattr(f, k)
+        if k == "face_angles":
+            got, exp = _cs(ctx, got), _cs(ctx, exp)
         ctx.eq("%s: %s equals the fresh mesh's" % (tag, k), got, exp)
     for k in TOPO:
         got = getattr(m, k)
         exp = getattr(f, k)
         ctx.concrete_equal("%s: %s equals the fresh mesh's" % (tag, k), np.asarray(got).tolist(), np.asarray(exp).tolist())
     ctx.note("cache keys after: %s" % sorted(m._cache.cache.keys()))
+
+
+def _cs(ctx, a):
+    """angles as (cos, sin) pairs: exact terms in the symbolic run"""
+    if not ctx.sym:
+        a = np.asarray(a, dtype=float)
+        return np.stack([np.cos(a), np.sin(a)], axis=-1)
+    flat = np.asarray(nparr.base(a), dtype=object).reshape(-1)
+    return np.array([[x.c, x.s] if hasattr(x, "c") else [np.cos(float(x)), np.sin(float(x))] for x in flat], dtype=object)
+
+
+def u_mirror(ctx):
+    """rigid mirror + symbolic translation after reading per-corner values (face_angles)"""
+    m = _mesh(ctx, ctx.params["mesh"])
+    _read(m, ctx.params["read"])
+    M = np.eye(4, dtype=object)
+    ax = ctx.choice("axis", 3)
+    M[ax, ax] = -1
+    # (a symbolic translation on top makes the sqrt/arccos chains of face_angles undecidable in time: the mirror plane is the solver's choice, the offset a catalogue constant)
+    for i in range(3):
+        M[i, 3] = [3, -2, 5][i]
+    Mreal = nparr.set_sd(nparr.wrap(M.copy()), np.float64) if ctx.sym else M.astype(np.float64)
+    m.apply_transform(Mreal)
+    _compare(ctx, m, "after apply_transform(mirror), read before: %s" % ",".join(ctx.params["read"]), extra=("face_angles",))
 
 
 def u_transform(ctx):
@@ -95,6 +123,17 @@ def u_edit(ctx):
         v = np.array(nparr.base(m.vertices) if ctx.sym else m.vertices, dtype=object if ctx.sym else float).copy()
         v[2, 1] = x
         m.vertices = nparr.set_sd(nparr.wrap(v), np.float64) if ctx.sym else v
+    elif how == "reassign-hashed":
+        # the new array comes from another mesh and has already been hashed there
+        o = _mesh(ctx, ctx.params["mesh"])
+        o.vertices[2, 1] = x
+        _read(o, NUMERIC + TOPO)
+        m.vertices = o.vertices
+    elif how == "density":
+        m.mass, m.moment_inertia, m.center_mass
+        m.density = ctx.real("rho", 0.5, 20)
+        _compare(ctx, m, "after setting density", extra=("mass", "center_mass", "moment_inertia"))
+        return
     elif how == "faces":
         f = np.array(m.faces).copy()
         f[0] = f[0][::-1]
@@ -125,6 +164,10 @@ def u_struct(ctx):
         m.remove_unreferenced_vertices()
     elif op == "copy":
         m = m.copy(include_cache=True)
+    elif op == "edit+copy":
+        # the source cache is stale at the moment of copying
+        m.vertices[1, 0] = ctx.real("y", -50, 50)
+        m = m.copy(include_cache=True)
     _compare(ctx, m, "after %s, read before: %s" % (op, ",".join(ctx.params["read"]) or "nothing"))
     m.vertices[0, 1] = x  # and one symbolic edit afterwards: nothing may survive it wrongly
     _compare(ctx, m, "after %s + edit, read before: %s" % (op, ",".join(ctx.params["read"]) or "nothing"))
@@ -145,12 +188,14 @@ def units(tier):
                 us.append(Unit("transform-%s-%s-read%d" % (mesh, kind, reads.index(rd)), u_transform, params={"mesh": mesh, "kind": kind, "read": rd, "similar_or_far": True}, key="transform/%s/read%d" % (kind, reads.index(rd)), functions=FUN,
                                bounds="catalogue %s x matrix family '%s' (all parameter values); values read before: %s" % (mesh, kind, {0: "none", 1: "all", 2: "face_normals only", 3: "topology only"}[reads.index(rd)]),
                                max_paths=100, wall_s=300, ob_ms=30000, feas_ms=800, group=False))
+    us.append(Unit("mirror-strip-angles", u_mirror, tiers=("thorough",), params={"mesh": "strip", "axis": 0, "read": ("face_angles",) + tuple(NUMERIC + TOPO)}, key="mirror/angles", functions=FUN + [F + "triangles.angles"],
+                   bounds="catalogue strip, x -> mirror_axis(x) + (3,-2,5) for each coordinate mirror, per-corner face_angles read before", max_paths=50, wall_s=200, ob_ms=30000, feas_ms=800, group=False))
     for mesh in ("tet", "strip"):
-        for how in ("setitem", "iadd", "reassign", "faces"):
+        for how in ("setitem", "iadd", "reassign", "faces", "reassign-hashed") + (("density",) if mesh == "tet" else ()):
             for rd in (reads[1],) if not T else reads[:2]:
                 us.append(Unit("edit-%s-%s-read%d" % (mesh, how, reads.index(rd)), u_edit, params={"mesh": mesh, "how": how, "read": rd}, key="edit/%s" % how, functions=FUN,
                                bounds="catalogue %s, edit '%s' with a symbolic value" % (mesh, how), max_paths=100, wall_s=200, ob_ms=30000, feas_ms=800, group=False))
-        for op in ("invert", "update_faces", "update_vertices", "remove_unreferenced", "copy"):
+        for op in ("invert", "update_faces", "update_vertices", "remove_unreferenced", "copy") + (("edit+copy",) if mesh == "strip" else ()):  # two symbolic edits on the tetrahedron do not finish
             us.append(Unit("struct-%s-%s" % (mesh, op), u_struct, params={"mesh": mesh, "op": op, "read": reads[1]}, key="struct/%s" % op, functions=FUN,
                            bounds="catalogue %s, mutator '%s' after reading everything, then a symbolic vertex edit" % (mesh, op), max_paths=100, wall_s=200, ob_ms=30000, feas_ms=800, group=False))
     return us
